@@ -23,12 +23,12 @@ def build_tree(base, spec):
         full = os.path.join(base, spec['roots'][ri], rel)
         os.makedirs(os.path.dirname(full), exist_ok=True)
         data = {'text': ('file %s in root %d\n' % (rel, ri)).encode('utf8') * 3,
-                'binary': bytes(range(256)) + hashlib.sha1(rel.encode('utf8')).digest(),
+                'binary': bytes(range(256)) + hashlib.sha1(('%d:%s' % (ri, rel)).encode('utf8')).digest(),
                 'empty': b'',
-                'big': (rel.encode('utf8') + b'\n') * 3000}[kind]
+                'big': (('%d:%s' % (ri, rel)).encode('utf8') + b'\n') * 3000}[kind]
         with open(full, 'wb') as f:
             f.write(data)
-        os.utime(full, (1500000000 + 1000 * ri + len(rel), 1500000000 + 1000 * ri + len(rel)))
+        os.utime(full, (1500000000 + len(rel), 1500000000 + len(rel)))      # same date in every root: one If-Modified-Since verdict per request
         files[full] = data
     for ri in range(len(spec['roots'])):
         os.makedirs(os.path.join(base, spec['roots'][ri]), exist_ok=True)
@@ -67,6 +67,10 @@ class Patches(object):
 
         def find_file(search_paths, path, limit_root=True):
             me.find_args.append(path)
+            if len(me.find_args) > 1:
+                me.fault = None            # faults hit the first static application consulted; an overlapping one then sees a healthy filesystem
+            me.n_mtime = 0
+            del me.calls[:]
             return me.orig['find_file'](search_paths, path, limit_root)
 
         def get_file_mtime(path, rounding=0):
@@ -86,7 +90,9 @@ class Patches(object):
 
         def isfile(path):
             r = me.orig['isfile'](path)
-            me.calls.append('isfile')
+            if r:
+                me.calls.append('isfile')
+            # "vanishes between lookup and open": the SECOND successful isfile (the one inside build_file_response) says no
             if me.fault == 'vanish' and r and me.calls.count('isfile') >= conditional_state['vanish_at']:
                 return False
             return r
@@ -238,7 +244,7 @@ def model_lines(case, obs):
         for gi, fa in enumerate(o['find_args']):
             g = groups[min(gi, len(groups) - 1)]
             cond = rq['ims'] is not None
-            f = rq['fault']
+            f = rq['fault'] if gi == 0 else None
             m1 = 'None' if f == 'mtime1' else [bool(o['mtime_cmp'])] if o['mtime_cmp'] is not None else [False]
             ans = [m1, f != 'vanish', f != 'open', f != 'mtime2', f != 'size', bool(o['has_ext_type']), f != 'peek']
             lines.append('staticlab ' + sexp.dumps([[r.encode('utf8') for r in g], [x.encode('utf8') for x in obs['files']],
